@@ -109,6 +109,17 @@ def analyse(ck):
                             if any(P.norm(s_[4][0]) == ("fld", mv.param(3), fld_) for s_ in tb):
                                 seen.add(k_)
             okn = seen == {1, 2}
+        if fn in ("ensure_verifier_data_matches_canonical", "ensure_common_matches_canonical", "ensure_config_is_canonical") and okn:
+            # WHOLE values: parameter 1 against parameter 2 (for the verifier data: their `.verifier_only` parts), directly or through
+            # their serialization — not one field of them (`.circuit_digest` alone leaves the Merkle cap unpinned)
+            part = (lambda k_: ("fld", mv.param(k_), "verifier_only")) if fn == "ensure_verifier_data_matches_canonical" else (lambda k_: mv.param(k_))
+            def whole(t_, k_):
+                t_ = P.ok_value(t_)
+                if (P.call_name(t_) or "").endswith("::to_bytes") and t_[4]:
+                    t_ = P.norm(t_[4][0])
+                return t_ == part(k_)
+            op_, x_, y_ = guards.reject_condition(ne[0])
+            okn = (whole(x_, 1) and whole(y_, 2)) or (whole(x_, 2) and whole(y_, 1))
         if fn == "ensure_verifier_data_matches_canonical" and okn:
             sub = mv.calls(lambda t: t.get("name") == "ensure_common_matches_canonical")
             okn = len(sub) == 1 and guards.continue_block(mv.body, sub[0][0]) is not None
@@ -149,6 +160,11 @@ def analyse(ck):
     kec = mv.calls(lambda t: t.get("name") == "keccak256")
     frb = mv.calls(lambda t: t.get("name") == "from_bytes")
     capg = mv.rejects("Gt", lambda t: "len" in T.show(t, maxdepth=3), lambda t: P.const_of(t) == 1024 * 1024)
+    # the same test as the predicate of an exists-form guard: `if let Some(..) = [(l, a), (l, b)].into_iter().find(|(_, x)| x.len() > CAP) { Err }`
+    for g_, coll_, pred_ in mv.exists_guards():
+        pr_ = P.norm(pred_)
+        if isinstance(pr_, tuple) and len(pr_) == 4 and pr_[0] == "bin" and pr_[1] == "Gt" and P.const_of(pr_[3]) == 1024 * 1024 and "len" in T.show(pr_[2], maxdepth=4):
+            capg.append(dict(g_, cond=("tuple", (pr_, P.norm(coll_)))))
     pin = [g for g in mv.gt if g["outcome"] <= {"err"} and guards.reject_condition(g) and guards.reject_condition(g)[0] == "Ne" and "keccak256" in T.show(g["cond"], maxdepth=4)]
     ok = len(kec) == 2 and len(frb) == 2 and len(capg) >= 1 and len(pin) == 2
     det = [(T.show(g["cond"], maxdepth=4)[:140], g["fail_when"], sorted(g["outcome"])) for g in mv.gt]
